@@ -164,7 +164,7 @@ def _is_raw_copy_comp(node, source_txt: str) -> bool:
     return False
 
 
-def check_raw_copies(prop: str, res: Result, repo: Repo, want=("method", "append", "validate")):
+def check_raw_copies(prop: str, res: Result, repo: Repo, want=("method", "append", "validate"), raw_required=True):
     """R-ALIAS: Candle objects reach a non-default candle manager only as fresh *raw* copies (Candle.raw_copy):
     a plain deep copy would carry converted values and tags into a manager that collapses before it converts, and a
     shared object would let one timeframe's collapse rewrite another's candles"""
@@ -214,7 +214,8 @@ def check_raw_copies(prop: str, res: Result, repo: Repo, want=("method", "append
         if len(ctor) == 1:
             c = ctor[0][1]
             first = c.args[0] if c.args else next((k.value for k in c.keywords if k.arg == "candles"), None)
-            if first is not None and _is_raw_copy_comp(first, "self._candles[DEFAULT_CANDLES].candles"):
+            plain = first is not None and any(isinstance(n, ast.Call) and call_name(n) == "deepcopy" for n in ast.walk(first)) and "DEFAULT_CANDLES" in ast.unparse(first)
+            if first is not None and (_is_raw_copy_comp(first, "self._candles[DEFAULT_CANDLES].candles") or (plain and not raw_required)):
                 res.ok(rule, {"site": f"{vi.where} {norm_construct(first)}", "why": "each new timeframe manager gets its own raw copies of the base candles"}, nontrivial="validate:raw_copy")
             else:
                 res.fail(rule, finding(prop, rule, vi, first if first is not None else c, "a new timeframe manager must be built from [candle.raw_copy() for candle in <base candles>] evaluated for that manager: shared or already converted candles corrupt its buckets"))
